@@ -281,6 +281,51 @@ pub fn generate(src: &str, cfg: &Config) -> Outcome {
     generate_with(src, None, cfg.options())
 }
 
+/// The generator's documented refusals, predicted from the program text and the options by reading naga's IR (not by
+/// asking the generator): classes of `Outcome::class()` a call may end in. `*` = naga itself rejects the program.
+pub fn expected_refusals(src: &str, cfg: &Config) -> Vec<String> {
+    let mut v = vec![];
+    let module = match std::panic::catch_unwind(|| naga::front::wgsl::parse_str(src)) {
+        Ok(Ok(m)) => m,
+        _ => return vec!["Err(ParseError)".to_string()],
+    };
+    if naga_check(src).is_err() {
+        return vec!["*".to_string()];
+    }
+    let _ = take_panic_message();
+    let mut pairs = BTreeSet::new();
+    let mut groups = BTreeSet::new();
+    for (_, g) in module.global_variables.iter() {
+        if let Some(b) = &g.binding {
+            if !pairs.insert((b.group, b.binding)) {
+                v.push("Err(DuplicateBinding".to_string());
+            }
+            groups.insert(b.group);
+            match &module.types[g.ty].inner {
+                naga::TypeInner::Atomic(_) | naga::TypeInner::BindingArray { .. } | naga::TypeInner::AccelerationStructure | naga::TypeInner::RayQuery => v.push("Panic(Unsupported type".to_string()),
+                _ => {}
+            }
+        }
+    }
+    if groups.iter().enumerate().any(|(i, g)| *g != i as u32) {
+        v.push("Err(NonConsecutiveBindGroups)".to_string());
+    }
+    for (_, t) in module.types.iter() {
+        match &t.inner {
+            naga::TypeInner::Array { size: naga::ArraySize::Dynamic, .. } => {
+                if !cfg.encase || cfg.bytemuck_host || cfg.bytemuck_vertex {
+                    v.push("Panic(Runtime-sized array fields are".to_string());
+                }
+            }
+            naga::TypeInner::Scalar(sc) | naga::TypeInner::Vector { scalar: sc, .. } | naga::TypeInner::Atomic(sc) if sc.width == 8 && matches!(sc.kind, naga::ScalarKind::Sint | naga::ScalarKind::Uint) => v.push("Panic(not yet implemented".to_string()),
+            _ => {}
+        }
+    }
+    v.sort();
+    v.dedup();
+    v
+}
+
 /// naga's own verdict on a source (parse + validate with all capabilities), independent of the generator.
 pub fn naga_check(src: &str) -> Result<(naga::Module, naga::valid::ModuleInfo), String> {
     let r = std::panic::catch_unwind(|| {
@@ -461,6 +506,17 @@ impl Report {
     }
     pub fn filtered(&mut self, why: &str) {
         *self.filtered_out.entry(why.to_string()).or_insert(0) += 1;
+    }
+    /// A call that did not return Ok: filtered when the failure is one of the generator's documented refusals *as
+    /// predicted from the program and the options* (see `expected_refusals`), a violation otherwise - a program inside
+    /// the supported feature set owes an output.
+    pub fn generation_failed(&mut self, case: impl Into<String>, class: &str, src: &str, cfg: &Config) {
+        let allowed = expected_refusals(src, cfg);
+        if let Some(a) = allowed.iter().find(|a| a.as_str() == "*" || class.contains(a.as_str())) {
+            self.filtered(&format!("generator refuses as documented ({})", if a == "*" { "naga itself rejects the program" } else { a.as_str() }));
+        } else {
+            self.violation(case, format!("generation fails on a program inside the supported feature set: {}", class.chars().take(110).collect::<String>()), json!({"wgsl": src, "config": cfg.key(), "predicted_refusals": allowed}));
+        }
     }
     pub fn violation(&mut self, case: impl Into<String>, signature: impl Into<String>, detail: Value) {
         self.violations.push(Violation { case: case.into(), signature: signature.into(), detail });
